@@ -341,7 +341,7 @@ func (c12) Run(e *Env) {
 		prov.gate.Release(p, out)
 	}
 
-	nSteps := e.Range(4, 45)
+	nSteps := e.Range(4, 45*e.Depth())
 	for step := 0; step < nSteps; step++ {
 		e.Settle()
 		ticks()
